@@ -28,6 +28,17 @@ DESTROYS_T_REQUIRED = [
     "<Drain<N, T> as Drop>::drop",
 ]
 
+# which kind of destructor site each of them was reviewed for: "drop" = a local going out of scope (a value already
+# moved out of the buffer, a by-value argument), "drop-call" = elements destroyed in place (drop_in_place, mem::drop of a
+# guard, assume_init_drop). A function reviewed for the first kind only must not start destroying slots in place.
+DESTROYS_T_KINDS = {
+    "<CircularBuffer::drop_range::Dropper<T> as Drop>::drop": {"drop-call"},
+    "<<Drain<N, T> as Drop>::drop::Dropper<T> as Drop>::drop": {"drop-call"},
+    "<CircularBuffer::extend_from_slice::write_uninit_slice_cloned::Guard<T> as Drop>::drop": {"drop-call"},
+    "<CircularBuffer<N, T> as From<[T; M]>>::from": {"drop-call"},
+    "<Drain<N, T> as Drop>::drop": {"drop-call"},
+}
+
 # functions that disarm a destructor: (max number of sites, reason)
 FORGET_SITES = {
     "CircularBuffer::extend_from_slice::write_uninit_slice_cloned": (1, "forgets the Guard after all clones succeeded (GUARD1)"),
